@@ -56,6 +56,7 @@ def run(prog, chk):
     chk.defer(element_bookkeeping_table, prog, chk)
     chk.defer(refused_mutation, prog, chk)
     chk.defer(append_to_raw_table, prog, chk)
+    chk.defer(set_raw_value_table, prog, chk)
     chk.defer(_run, prog, chk)
 
 
@@ -788,3 +789,41 @@ def append_to_raw_table(prog, chk):
         ok = (q.ret == 0 and got == want) or (isinstance(q.ret, int) and q.ret != 0 and dlen > 0)
         chk.ob("C09.appendform", inst, ok, "expected the TLV's elements to be %s (or, with a payload, an error); source: status %s, elements %s" % (want, q.ret, got),
                loc=fn.loc(), fn=fn, nontrivial=dlen > 0)
+
+
+def set_raw_value_table(prog, chk):
+    """KSI_TLV_setRawValue gives an element a new payload.  An element holds its payload either as octets or as a list of nested
+    elements, and the serializer writes the list whenever there is one: after the call the element must be in the octets form with
+    exactly the new value - for an empty value as well (length 0, no list left), which is the case a "nothing to copy" shortcut
+    forgets.  Evaluated over the form before (octets / list) x the new value (empty / 3 octets) x own buffer present or not."""
+    from ksirules.interp import TOP, Interp, Ptr, succeed_model, inline_model, unit_helpers
+    chk.rule("C09.setraw", "after KSI_TLV_setRawValue the element is in the octets form with the new length, and no nested list is left - also for "
+                           "the empty value (decision table)", floor=8)
+    fn = prog.fn("KSI_TLV_setRawValue", "tlv.c")
+    tp, dp, lp = [p["n"] for p in fn.params]
+    for form, nested in (("octets", 0), ("nested list", Ptr("OLDLIST"))):
+        for vlabel, dlen in (("empty value", 0), ("3 octets", 3)):
+            for buf in (1, 0):
+                freed = []
+
+                def own_buffer(I, p, node, args):
+                    I.write(p, "T->buffer", Ptr("OWNBUF"))
+                    I.write(p, "T->buffer_size", 0xffff + 4)
+                    return 0
+                ov = {"KSI_TLVList_free": lambda I, p, n, a: (freed.append(a[0]), TOP)[1], "memcpy": lambda I, p, n, a: a[0], "memmove": lambda I, p, n, a: a[0],
+                      "createOwnBuffer": own_buffer, "KSI_ERR_clearErrors": lambda I, p, n, a: TOP, "KSI_ERR_push": lambda I, p, n, a: TOP}
+                inputs = {tp: Ptr("T"), dp: Ptr("DATA") if dlen else 0, lp: dlen, "T->ctx": Ptr("ctx"), "T->nested": nested,
+                          "T->buffer": Ptr("OWNBUF") if buf else 0, "T->buffer_size": 0xffff + 4 if buf else 0, "T->datap": Ptr("OLDDATA"), "T->datap_len": 9}
+                hs = unit_helpers(prog, fn) - set(ov)
+                I = Interp(fn, inputs=inputs, call_model=inline_model(prog, hs, fallback=succeed_model(prog, ov)) if hs else succeed_model(prog, ov),
+                           on_unknown="stop", prog=prog)
+                paths = I.run()
+                chk.paths += len(paths)
+                inst = "setRawValue[%s before, %s, %s]" % (form, vlabel, "own buffer" if buf else "no buffer yet")
+                if len(paths) != 1 or paths[0].undetermined:
+                    raise AnalysisBroken("%s: evaluation not determined: %s" % (inst, [q.undetermined[:1] for q in paths]))
+                q = paths[0]
+                got = (I.read(q, "T->nested"), I.read(q, "T->datap_len"))
+                ok = q.ret == 0 and got == (0, dlen) and (not nested or freed == [Ptr("OLDLIST")])
+                chk.ob("C09.setraw", inst, ok, "expected KSI_OK, no nested list, payload length %d%s; source: status %s, nested %s, length %s, lists released %s"
+                       % (dlen, ", the old list released" if nested else "", q.ret, got[0], got[1], freed), loc=fn.loc(), fn=fn, nontrivial=bool(nested) and not dlen)
